@@ -6,7 +6,9 @@ from common import hx, unhx
 from runner import PropertyCheck, Failure, Disagreement
 
 SEG_CHARS = "-|+/.,'`_~:!=*oO<>^vV()[]#ab xyz" + "<>&'" + "éüжш" + "一二日本" + "─│┌┘●" + \
-    "“”‘’«»＂″‟„"      # characters that look like quotes: only the ASCII quote delimits a string
+    "“”‘’«»＂″‟„" + \
+    "\t\u00a0\u2003\u3000\u202f\u1680\u2009"      # look-alikes of the quote (only the ASCII quote delimits a string), and
+                                                     # blanks other than U+0020: inside quotes they are content, shown verbatim
 OUT_CHARS = "-|+/.,'`_~:!=*oO<>^v()[]ab  xyz    " + "é一"
 
 
